@@ -154,6 +154,8 @@ def run(ctx, rep):
     twins.twin_agreement(ctx, rep, "R05c", ["Continuation"], "a continuation invoked in tail position must behave as "
                          "one invoked in operand position")
     r05e(ctx, rep)
+    from . import runloop
+    runloop.r_stack_monotone(ctx, rep, "R05f")
     # R05d: the collector keeps continuations alive
     from . import C03
     rep.rule("R05d", "the collector keeps continuations alive: C03's trace-completeness obligations for "
